@@ -3,7 +3,7 @@
    F2: depth, allocation and setSRID work grow with the nesting depth, which nothing bounds on the unchanged tree). *)
 From Coq Require Import ZArith List Bool Ascii String Lia.
 From GeosV.C11 Require Import WKBDefs WKBProofs WKTDefs WKTProofs GenTie GenPreludeWKB.
-From GeosV.Gen Require Import C11_minMemSize.
+From GeosV.Gen Require Import C11_minMemSize C11_limits.
 Import ListNotations.
 Local Open Scope Z_scope.
 
@@ -49,6 +49,26 @@ Print Assumptions C11_wkb_depth_limited.
 Theorem C11_wkb_ctor_guards : forall c input, bytes_ok input -> cc_guard c = true -> forall t, wkb_read c input <> Err EUB t.
 Proof. exact ctor_guards. Qed.
 Print Assumptions C11_wkb_ctor_guards.
+
+(* ---- the readers as they are in the source now: Gen/C11_limits.v is rewritten on every run from the headers and sources ---- *)
+Definition cfg_wkb_current : cfg := mkCfg wkb_max_nesting compound_guard.
+Definition cfg_wkt_current : cfg := mkCfg wkt_max_nesting compound_guard.
+
+(* depth_bound, re-proved against the limit read from the source: the WKB reader has a nesting limit m (0 <= m <= 1000), no run
+   of the model enters more than m + 1 frames, and vector slots and setSRID visits are linear in |input| with the constant m + 1 *)
+Theorem C11_wkb_depth_bound : exists m, wkb_max_nesting = Some m /\ 0 <= m <= 1000 /\
+  forall input, bytes_ok input -> forall t, final_stats (wkb_read cfg_wkb_current input) = Some t ->
+    dmax t <= m + 1 /\ 4 * slots t <= Z.of_nat (List.length input) * (m + 1) /\ 5 * quad t <= 2 * Z.of_nat (List.length input) * (m + 1).
+Proof.
+  eexists. split; [reflexivity|]. split; [lia|]. intros input BI t H.
+  apply (depth_limited cfg_wkb_current input BI _ t); [reflexivity|lia|exact H].
+Qed.
+Print Assumptions C11_wkb_depth_bound.
+
+(* ctor_guards for the current source: the compound-curve guard is there, so no input reaches undefined behaviour *)
+Theorem C11_wkb_no_ub : compound_guard = true /\ forall input, bytes_ok input -> forall t, wkb_read cfg_wkb_current input <> Err EUB t.
+Proof. split; [reflexivity|]. intros input BI t. apply (ctor_guards cfg_wkb_current input BI). reflexivity. Qed.
+Print Assumptions C11_wkb_no_ub.
 
 (* tie G: the translated WKBReader::minMemSize is the model's pre-allocation check *)
 Theorem C11_minMemSize_tie : forall r tid n, gen_minMemSize (Some r) tid n = if r <? n * mm_mult tid then None else Some r.
@@ -133,6 +153,17 @@ Print Assumptions C11_wkt_depth_limited.
 Theorem C11_wkt_ctor_guards : forall numval c input, cc_guard c = true -> forall t, wkt_read numval c input <> WErr EUB t.
 Proof. exact wkt_ctor_guards. Qed.
 Print Assumptions C11_wkt_ctor_guards.
+
+Theorem C11_wkt_depth_bound : exists m, wkt_max_nesting = Some m /\ 0 <= m <= 1000 /\
+  forall numval input t, wfinal_stats (wkt_read numval cfg_wkt_current input) = Some t -> wdmax t <= m + 1.
+Proof.
+  eexists. split; [reflexivity|]. split; [lia|]. intros numval input t H.
+  apply (wkt_depth_limited numval cfg_wkt_current input _ t); [reflexivity|lia|exact H].
+Qed.
+Print Assumptions C11_wkt_depth_bound.
+Theorem C11_wkt_no_ub : forall numval input t, wkt_read numval cfg_wkt_current input <> WErr EUB t.
+Proof. intros numval input t. apply (wkt_ctor_guards numval cfg_wkt_current input). reflexivity. Qed.
+Print Assumptions C11_wkt_no_ub.
 
 (* ---- witnesses (numval: a toy strtod for the digits 0..9, enough for the examples) ---- *)
 Definition toy_numval (w : list ascii) : Z :=
